@@ -726,6 +726,17 @@ pub fn main_for(prop: Property) -> ! {
                     continue;
                 }
             }
+            // a property may be served by two binaries (C07 and its Polars cells): inputs of the
+            // other binary's sub-properties are not ours to replay
+            {
+                let txt = std::fs::read_to_string(&f).unwrap_or_default();
+                let v: Value = serde_json::from_str(&txt).unwrap_or(Value::Null);
+                if let Some(sn) = v["sub"].as_str() {
+                    if find_sub(&subs, sn).is_none() {
+                        continue;
+                    }
+                }
+            }
             replayed += 1;
             match eval_replay(&subs, &f, &prop.raw_decoder) {
                 Ok(None) => {},
@@ -939,6 +950,8 @@ pub fn main_for(prop: Property) -> ! {
     let wall = start.elapsed().as_secs_f64();
     // statistics of the coverage-guided campaign that ./check ran before this binary (thorough tier)
     let fuzz_stats: Value = std::env::var("VERIF_FUZZ_STATS").ok().and_then(|p| std::fs::read_to_string(p).ok()).and_then(|t| serde_json::from_str(&t).ok()).unwrap_or(Value::Null);
+    // coverage of a companion binary that ./check ran before this one (C07: the Polars cells)
+    let extra_evidence: Value = std::env::var("VERIF_EXTRA_EVIDENCE").ok().and_then(|p| std::fs::read_to_string(p).ok()).and_then(|t| serde_json::from_str::<Value>(&t).ok()).map(|v| v["coverage"].clone()).unwrap_or(Value::Null);
     let ev = json!({
         "property_id": id,
         "tier": tier.name(),
@@ -958,6 +971,7 @@ pub fn main_for(prop: Property) -> ! {
             "exhaustive": false,
             "exhaustive_subs": exhaustive_subs,
             "fuzz": fuzz_stats,
+            "extra": extra_evidence,
         },
         "assumptions": prop.assumptions,
         "wall_s": wall,
@@ -965,7 +979,10 @@ pub fn main_for(prop: Property) -> ! {
     });
     let ev_dir = Path::new(&verif_root()).join("evidence");
     let _ = std::fs::create_dir_all(&ev_dir);
-    let ev_path = ev_dir.join(format!("{}.json", id));
+    let ev_path = match std::env::var("VERIF_EVIDENCE_PATH") {
+        Ok(p) => PathBuf::from(p),
+        Err(_) => ev_dir.join(format!("{}.json", id)),
+    };
     if args.only.is_none() {
         if let Err(e) = std::fs::write(&ev_path, serde_json::to_string_pretty(&ev).unwrap()) {
             eprintln!("cannot write evidence: {}", e);
